@@ -1,6 +1,6 @@
 /-
 C20 — the `while` kernels of timeseries/_ext/numerics.pyx that index a buffer
-*before* testing the loop bound.
+*before* testing the loop bound (visibility), or did so before its repair (adaptive).
 
 * `_set_adaptive_neighborhood_size` (numerics.pyx:428-449): executable model with
   Cython's `boundscheck=True` semantics (an index outside the buffer's own shape
@@ -27,20 +27,24 @@ def set2 (m : IMat) (r c : Int) (v : Int) : Option IMat :=
 
 def get1 (v : List Int) (i : Int) : Option Int := if i < 0 then none else v[i.toNat]?
 
-/-- `while recurrence[l, sorted_neighbors[l, k]] == 1 and k < n_time: k += 1`
-returns the final `k`, or `none` if one of the two buffer reads is out of range.
+/-- `while k < n_time and recurrence[l, sorted_neighbors[l, k]] == 1: k += 1`
+(the bound is tested *first* since the repair of the kernel, C07 fix 9c70d12; the pinned
+code read the buffers before testing the bound and raised IndexError at `k = n_time`).
+Returns the final `k`, or `none` if one of the two buffer reads is out of range.
 `fuel` bounds the number of iterations. -/
 def scan (recur sn : IMat) (l : Int) (nT : Nat) : Nat → Nat → Option Nat
   | 0, k => some k
   | f + 1, k =>
-    match get2 sn l k with
-    | none => none
-    | some c =>
-      match get2 recur l c with
+    if k < nT then
+      match get2 sn l k with
       | none => none
-      | some r => if r == 1 && decide (k < nT) then scan recur sn l nT f (k + 1) else some k
+      | some c =>
+        match get2 recur l c with
+        | none => none
+        | some r => if r == 1 then scan recur sn l nT f (k + 1) else some k
+    else some k
 
-/-- loop body for one `(i, j)` -/
+/-- loop body for one `(i, j)`: the new link is only written `if k < n_time` -/
 def body (sn : IMat) (order : List Int) (nT : Nat) (i j : Nat) (recur : IMat) : Option IMat :=
   match get1 order j with
   | none => none
@@ -48,12 +52,14 @@ def body (sn : IMat) (order : List Int) (nT : Nat) (i j : Nat) (recur : IMat) : 
     match scan recur sn l nT (nT + 2) (i + 1) with
     | none => none
     | some k =>
-      match get2 sn l k with
-      | none => none
-      | some c =>
-        match set2 recur l c 1 with
+      if k < nT then
+        match get2 sn l k with
         | none => none
-        | some r1 => set2 r1 c l 1
+        | some c =>
+          match set2 recur l c 1 with
+          | none => none
+          | some r1 => set2 r1 c l 1
+      else some recur
 
 def adaptive (nT a : Nat) (sn : IMat) (order : List Int) (recur : IMat) : Option IMat :=
   (List.range a).foldl (fun acc i =>
